@@ -50,6 +50,10 @@ def generate(seed, tier):
             ops.append({'op': 'balance'})
         elif x < 0.95:
             ops.append({'op': 'receive_script', 'note': rng.choice(['bob', 'for alice', 'x'])})
+        elif x < 0.975:
+            # the mining script from start-up to shutdown: reserves a key, finds blocks, is interrupted (Ctrl-C) at a seeded call
+            ops.append({'op': 'miner_session', 'rounds': rng.randint(1, 3), 'interrupt_at': rng.choice([None] + list(range(0, 14))),
+                        'before': rng.random() < 0.5})
         else:
             ops.append({'op': 'balance'})
     ops.append({'op': 'save'})
@@ -72,6 +76,173 @@ def _wallet_tuple(w):
 
 def _same(a, b):
     return a[0] == b[0] and sorted(a[1]) == sorted(b[1]) and a[2] == b[2]
+
+
+def _miner_session(op, fs, sim, wallet, res, trace, save_wallet, open_or_init_wallet, all_pubs):
+    """skepticoin-mine's MinerWatcher.__call__ run for real (start-up, message loop, shutdown) against a socket-less node and
+    a scripted miner process; KeyboardInterrupt is raised at the k-th call the found-block handler makes to its collaborators.
+    Afterwards the wallet FILE is what the next process sees: a key that received a block reward in this session must not be
+    handed out again while unused keys remain."""
+    import sys
+    import skepticoin.mining as mining
+    import skepticoin.blockstore as bs
+    import skepticoin.consensus as consensus
+    from skepticoin.networking.local_peer import LocalPeer
+    from skepticoin.wallet import Wallet
+
+    save_wallet(wallet)                       # the file is this wallet
+    file_t = _parse(fs.files['wallet.json'])
+    if len(file_t[1]) < 3:
+        return True, 'too few unused keys'
+    from skepticoin.networking.disk_interface import DiskInterface
+    lp = LocalPeer(disk_interface=DiskInterface())      # (LocalPeer's default argument is ONE DiskInterface shared by every instance)
+    store = bs.BlockStore(':memory:')
+    saved_store = bs.DefaultBlockStore.instance
+    bs.DefaultBlockStore.instance = store
+    store.write_blocks_to_disk(sorted(sim.cs.block_by_hash.values(), key=lambda b_: b_.height))
+    head_ts = sim.cs.head().timestamp
+    ids0 = set(sim.cs.block_by_hash.keys())
+    state = {'calls': 0, 'pending': None, 'rounds': op.get('rounds', 1), 'nonce': 0, 'fired': False}
+    k_int, before = op.get('interrupt_at'), op.get('before', True)
+
+    class ScriptQueue:
+        # stands in for multiprocessing.Queue: the first one made is the watcher's inbox, the others lead to the miners
+        made = []
+
+        def __init__(self):
+            self.items = []
+            self.inbox = not ScriptQueue.made
+            ScriptQueue.made.append(self)
+
+        def put(self, item):
+            if not self.inbox:
+                state['pending'] = item            # ('scrypt_input', (summary, height))
+
+        def get(self):
+            if state['pending'] is not None:
+                _t, (summary, height) = state['pending']
+                state['pending'] = None
+                return (0, 'scrypt_output', consensus.construct_summary_hash(summary, height))
+            if state['rounds'] > 0:
+                state['rounds'] -= 1
+                state['nonce'] += 1
+                return (0, 'request_scrypt_input', state['nonce'])
+            raise KeyboardInterrupt()             # Ctrl-C between two messages
+
+        def empty(self):
+            return False
+    ScriptQueue.made = []
+
+    class FakeProcess:
+        def __init__(self, *a, **kw):
+            pass
+
+        def start(self):
+            pass
+
+        def join(self):
+            pass
+
+    class FakeThread:
+        local_peer = lp
+
+        def stop(self):
+            pass
+
+        def join(self):
+            pass
+
+    def interruptible(fn):
+        def wrapped(*a, **kw):
+            n = state['calls']
+            state['calls'] += 1
+            if k_int is not None and n == k_int and before and not state['fired']:
+                state['fired'] = True
+                raise KeyboardInterrupt()
+            r = fn(*a, **kw)
+            if k_int is not None and n == k_int and not before and not state['fired']:
+                state['fired'] = True
+                raise KeyboardInterrupt()
+            return r
+        return wrapped
+
+    names = ['Queue', 'Process', 'configure_logging_from_args', 'check_chain_dir', 'read_chain_from_disk',
+             'start_networking_peer_in_background', 'wait_for_fresh_chain', 'MAX_KNOWN_HASH_HEIGHT', 'time', 'save_wallet']
+    saved = {n_: mining.__dict__.get(n_) for n_ in names}
+    saved_gapk = Wallet.get_annotated_public_key
+    argv = sys.argv
+    try:
+        lp.chain_manager.set_coinstate(sim.cs)
+        mining.Queue = ScriptQueue
+        mining.Process = FakeProcess
+        mining.configure_logging_from_args = lambda a: None
+        mining.check_chain_dir = lambda: None
+        mining.read_chain_from_disk = lambda: sim.cs
+        mining.start_networking_peer_in_background = lambda a, c: FakeThread()
+        mining.wait_for_fresh_chain = lambda t, freshness=0: None
+        mining.MAX_KNOWN_HASH_HEIGHT = 0
+        mining.time = lambda: head_ts + 50
+        sys.argv = ['skepticoin-mine', '--quiet']
+        watcher = mining.MinerWatcher()
+        # the calls a found-block handler makes to its collaborators are the places where the interrupt may land
+        lp.chain_manager.set_coinstate = interruptible(lp.chain_manager.set_coinstate)
+        lp.network_manager.broadcast_block = interruptible(lp.network_manager.broadcast_block)
+        lp.disk_interface.save_block = interruptible(lp.disk_interface.save_block)
+        lp.disk_interface.flush_blocks = interruptible(lp.disk_interface.flush_blocks)
+        mining.save_wallet = interruptible(saved['save_wallet'])
+        Wallet.get_annotated_public_key = interruptible(saved_gapk)
+        try:
+            with env.quiet():
+                watcher()
+        except KeyboardInterrupt:
+            # Ctrl-C during start-up (before the message loop): the process simply ends; the wallet file is what it is
+            res.bump('probe:interrupt_during_miner_start_up')
+        except Exception as e:
+            res.violate(PROP, 'C15/miner-session-raised', 'the mining script let %s escape' % type(e).__name__)
+            return False, 'raised'
+        res.bump('miner_sessions')
+        if state['fired']:
+            res.bump('fault:interrupt_inside_miner_session')
+        served = lp.chain_manager.coinstate
+        paid = set()
+        for bid, blk in served.block_by_hash.items():
+            if bid not in ids0:
+                for o in blk.transactions[0].outputs:
+                    paid.add(o.public_key.public_key)
+        if paid:
+            res.bump('probe:session_found_blocks', len(paid))
+    finally:
+        sys.argv = argv
+        Wallet.get_annotated_public_key = saved_gapk
+        for n_, v_ in saved.items():
+            if v_ is None:
+                mining.__dict__.pop(n_, None)
+            else:
+                setattr(mining, n_, v_)
+        bs.DefaultBlockStore.instance = saved_store
+        try:
+            store.close()
+            lp.selector.close()
+        except Exception:
+            pass
+    # the next process
+    try:
+        w2 = open_or_init_wallet()
+    except Exception as e:
+        res.violate(PROP, 'C15/reload-fails-after-crash', 'after a mining session the wallet does not load (%s)' % type(e).__name__)
+        return False, 'reload'
+    unused_n = len(w2.unused_public_keys)
+    for _ in range(min(3, max(0, unused_n - 1))):
+        k2 = w2.get_annotated_public_key('next session')
+        if k2 in paid:
+            res.violate(PROP, 'C15/key-handed-out-twice',
+                        'a key that received the reward of a block found in the previous mining session is handed out again after a '
+                        'restart although %d unused keys remain (interrupt at call %r, %s it)' % (
+                            unused_n, k_int, 'before' if before else 'after'))
+            return False, 'twice'
+    trace.add('miner_session', len(paid), state['fired'])
+    res.distinct.add('miner_session:%s:%s:%d' % (k_int, before, len(paid)))
+    return True, ''
 
 
 def execute(script):
@@ -97,6 +268,9 @@ def execute(script):
         mod.open = fs.open
         mod.os = fs.os_shim()
     entropy.install(script.get('seed', 0))
+    import random as _random
+    saved_wrandom = wallet_mod.random
+    wallet_mod.random = _random.Random(script.get('seed', 0) ^ 0x5eed)     # hand-outs from an exhausted pool pick a key at random
     try:
         sim = LedgerSim({'base': 'hreal'}, PROP, res, trace)
         nk = cfg.get('keys', 5)
@@ -382,6 +556,16 @@ def execute(script):
                 last_handout = None
                 res.distinct.add('receive_script:%d' % nb)
                 trace.add('receive_script', nb)
+            elif kind == 'miner_session':
+                if not fs.isfile('wallet.json'):
+                    continue
+                ok_, why_ = _miner_session(op, fs, sim, wallet, res, trace, save_wallet, open_or_init_wallet, all_pubs)
+                if not ok_:
+                    break
+                wallet = open_or_init_wallet()
+                outstanding = {k for k in all_pubs if human(k) in _parse(fs.files['wallet.json'])[2]}
+                reused = {}
+                last_handout = None
             elif kind == 'balance':
                 head = sim.chain.blocks[sim.cs.current_chain_hash]
                 want = sum(v for v, pub in head.utxo.values() if pub in wallet.keypairs)
@@ -399,6 +583,7 @@ def execute(script):
                 res.violate(PROP, 'C15/save-load-not-faithful', 'save then load does not reproduce the wallet')
     finally:
         entropy.uninstall()
+        wallet_mod.random = saved_wrandom
         for mod, (o, osmod) in saved.items():
             if o is None:
                 mod.__dict__.pop('open', None)
